@@ -1,7 +1,11 @@
 package main
 
 // component "offsets" (C06): KafkaConsumer.assignPartitions over a scripted client.
-// input: "maxLag recEn maxRec cerr aerr ; p committed|a low high werr ; ..."
+// input: "maxLag recEn maxRec cerr aerr ; p committed|a low high werr ; ... [; @ <history>]"
+// history (what the same consumer went through before the judged call; the property holds "whenever partitions are
+// assigned", so the model ignores it): w = an attempt whose watermark query failed, c = an attempt whose Committed query
+// failed, a = an attempt whose Assign failed, o = a successful assignment; a trailing r = followed by a revocation.
+// Earlier attempts see other committed offsets and watermarks and skip nothing (so they file no request).
 
 import (
 	"fmt"
@@ -117,6 +121,9 @@ func genOffsets(r *rng, n int, tier string, emit func(string)) {
 			low := r.rangeI(0, 5)
 			parts = append(parts, fmt.Sprintf("%d %s %d %d %s", perm[j], committed, low, high, b01(r.chance(4))))
 		}
+		if r.chance(30) && np > 0 {
+			parts = append(parts, "@ "+r.pickS("w", "wr", "wr", "c", "cr", "ar", "or", "or", "o"))
+		}
 		emit(strings.Join(parts, " ; "))
 	}
 }
@@ -135,9 +142,16 @@ func execOffsets(input string) string {
 	sc.assignErr = hd[4] == "1"
 	topic := "t"
 	var tps []kafka.TopicPartition
+	history := ""
 	for _, seg := range segs[1:] {
 		f := strings.Fields(seg)
 		if len(f) == 0 {
+			continue
+		}
+		if f[0] == "@" {
+			if len(f) > 1 {
+				history = f[1]
+			}
 			continue
 		}
 		if len(f) != 5 {
@@ -167,6 +181,36 @@ func execOffsets(input string) string {
 		rc.SetAssignedPartitions([]kafka.TopicPartition{{Topic: &topic, Partition: 999}})
 	}
 	kc := kafkaconsumer.VerifNewKafkaConsumer(sc, topic, sendCh, int(maxLag), m, rc, ctx)
+	if history != "" && len(tps) > 0 {
+		// an earlier attempt on the same consumer, against a client in another state; it skips nothing
+		saved := *sc
+		sc.committed, sc.low, sc.high, sc.wmErr = map[int32]int64{}, map[int32]int64{}, map[int32]int64{}, map[int32]bool{}
+		sc.committedErr, sc.assignErr = false, false
+		for i, tp := range tps {
+			sc.committed[tp.Partition] = int64(7 + 3*i)
+			sc.high[tp.Partition] = int64(7 + 3*i)
+			sc.low[tp.Partition] = 0
+		}
+		switch history[0] {
+		case 'w':
+			sc.wmErr[tps[0].Partition] = true
+		case 'c':
+			sc.committedErr = true
+		case 'a':
+			sc.assignErr = true
+		}
+		_ = kc.VerifAssignPartitions(tps)
+		if strings.HasSuffix(history, "r") {
+			kc.VerifRevoke()
+		}
+		sc.committed, sc.low, sc.high, sc.wmErr = saved.committed, saved.low, saved.high, saved.wmErr
+		sc.committedErr, sc.assignErr = saved.committedErr, saved.assignErr
+		sc.calls, sc.assigned, sc.lastAssign = nil, false, nil
+		ctx.sent = nil
+		if rc != nil {
+			rc.SetAssignedPartitions([]kafka.TopicPartition{{Topic: &topic, Partition: 999}})
+		}
+	}
 	err := kc.VerifAssignPartitions(tps)
 	res := "ok"
 	if err != nil {
